@@ -69,8 +69,14 @@ static ec_curve_str_t toy_curves[] = {
 	TOY("E16M3",  4,  16, "fff1", "ffee", "000a", "0006", "1c90", "fe9f", 1, EC_CURVE_FLAG_A_M3),
 };
 
+/* Non-termination watchdog, re-armed before EVERY library call (dirty_stack() precedes each of them), so that a row of
+ * thousands of calls on a toy curve needs no larger budget than one call: WD_CPU_S seconds of CPU time, WD_WALL_S of wall clock. */
+static unsigned wd_cpu_s = 60;     /* ECDSA_DRV_WD_CPU: the slowest single call measured (521-bit curve, 8-bit digits) costs 1.4 s of CPU time */
+#define WD_CPU_S wd_cpu_s
+#define WD_WALL_S (6 * wd_cpu_s)
 static void __attribute__((noinline)) dirty_stack(void) {
 	unsigned char junk[262144];
+	vh_watchdog(WD_CPU_S, WD_WALL_S);
 	memset(junk, 0xA5, sizeof(junk));
 	__asm__ volatile("" : : "r"(junk) : "memory");
 }
@@ -221,6 +227,7 @@ static void put_hex_or_dash(const uint8_t *p, size_t n, int present) {
 int main(void) {
 	char *line = NULL; size_t lcap = 0; ssize_t ll;
 	vh_install_fault_handler();
+	if (getenv("ECDSA_DRV_WD_CPU") && atoi(getenv("ECDSA_DRV_WD_CPU")) > 0) wd_cpu_s = (unsigned)atoi(getenv("ECDSA_DRV_WD_CPU"));
 	while ((ll = getline(&line, &lcap, stdin)) > 0) {
 		size_t nt = 0, i;
 		char tag[200];
@@ -230,7 +237,7 @@ int main(void) {
 		for (char *p = strtok(line, " \n"); p && nt < MAXTOK; p = strtok(NULL, " \n")) tok[nt++] = p;
 		if (nt == 0) continue;
 		const char *op = tok[0];
-		alarm(300);
+		vh_watchdog(WD_CPU_S, WD_WALL_S);
 		if (!strcmp(op, "cfg")) {
 			int proj = 0, mix = 0, rdbl = 0, mulldiv = 0, pubchk = 1;
 #ifdef EC_USE_PROJECTIVE
